@@ -616,7 +616,8 @@ class QuorumSensing:
         threshold = self.custom_threshold or len(self.colony) // 2 + 1
         if 0 < threshold < 1:
             # Fractional threshold (e.g. EmergencyQuorum's 0.3): share of the colony, rounded up
-            threshold = math.ceil(threshold * len(self.colony) - 1e-9)
+            # (float(): the share may be a Fraction or a Decimal; Decimal does not mix with the float tolerance)
+            threshold = math.ceil(float(threshold) * len(self.colony) - 1e-9)
         threshold = max(1, int(threshold))
 
         reached = len(permit_votes) >= threshold
